@@ -37,7 +37,7 @@ theorem LexRel.weaken' {δ d np : Nat} {ab ab' : Ab} {ls lw : LexRegs} (h : LexR
   ⟨h.ls_le, h.ls_eq, fun g => h.p (hP g), h.fd, fun g => h.t (hT g),
     OptRel.mono (fun _ _ hr => hr.weaken (Nat.le_refl _) hGn hGa) h.tag,
     OptRel.mono (fun _ _ hr => hr.weaken hA) h.attr,
-    OptRel.mono (fun _ _ hr => hr.weaken hN) h.nt, fun g => h.nc (hNc g)⟩
+    OptRel.mono (fun _ _ hr => hr.weaken hN) h.nt, fun g => h.nc (hNc g), fun g => h.ntu (hN g), fun g g' => h.ntp (hN g) (hP g')⟩
 
 theorem LexRel.weaken {δ d np : Nat} {ab ab' : Ab} {ls lw : LexRegs} (h : LexRel δ d ab np ls lw)
     (hle : ab'.le ab = true) : LexRel δ d ab' np ls lw := by
@@ -52,7 +52,7 @@ theorem optNonTag_eq {δ L : Nat} {x y : Option NonTagOutline} (h : OptRel (NonT
   · simp [(hr.val rfl).1]
 
 section
-variable {env : Env κ} {inpS inpW : Bytes} {δ : Nat} {K : Nat → κ → κ → Prop}
+variable {env : Env κ} {inpS inpW : Bytes} {δ : Nat} {K : Nat → κ → κ → Prop} {Loc : κ → Nat → Nat → TextType → Prop}
 
 /-- the standing assumptions of an action step in lexer mode (no text debt) -/
 structure LexPre (δ : Nat) (K : Nat → κ → κ → Prop) (ab : Ab) (cs cw : Common) (ls lw : LexRegs) (xs xw : Ctx κ) : Prop where
@@ -99,11 +99,15 @@ theorem lexAct_create {ab ab' : Ab} {cs cw : Common} {ls lw : LexRegs} {xs xw : 
   · simp only [Option.some.injEq] at habs; subst habs
     exact h.ret _ h.c rfl { h.l with
       nt := ⟨rfl, fun _ => ⟨rfl, trivial, trivial, trivial⟩⟩
-      nc := fun g => by cases g }
+      nc := fun g => by cases g
+      ntu := fun _ n hn => by cases hn; exact ⟨trivial, trivial, trivial⟩
+      ntp := fun _ _ n hn => by cases hn; exact ⟨trivial, trivial, trivial⟩ }
   · simp only [Option.some.injEq] at habs; subst habs
     exact h.ret _ h.c rfl { h.l with
       nt := ⟨trivial, fun g => by cases g⟩
-      nc := fun _ => ⟨_, rfl⟩ }
+      nc := fun _ => ⟨_, rfl⟩
+      ntu := fun _ n hn => by cases hn; trivial
+      ntp := fun _ _ n hn => by cases hn; trivial }
   · split at habs
     · rename_i hP
       simp only [Option.some.injEq] at habs; subst habs
@@ -168,7 +172,7 @@ theorem lexAct_comment {ab ab' : Ab} {cs cw : Common} {ls lw : LexRegs} {xs xw :
         obtain ⟨r', hy⟩ := nt_comment_l hnt hx
         rw [hy]
         subst habs
-        refine h.ret _ h.c rfl { h.l with nt := ⟨trivial, fun g => ?_⟩, nc := fun _ => ⟨_, rfl⟩ }
+        refine h.ret _ h.c rfl { h.l with nt := ⟨trivial, fun g => ?_⟩, nc := fun _ => ⟨_, rfl⟩, ntu := (fun _ n hn => by cases hn; trivial), ntp := (fun _ _ n hn => by cases hn; trivial) }
         have hT : ab.T = true := by
           revert g; simp only; cases ab.Nc <;> simp
         obtain ⟨t1, t2⟩ := h.l.t hT
@@ -180,14 +184,15 @@ theorem lexAct_comment {ab ab' : Ab} {cs cw : Common} {ls lw : LexRegs} {xs xw :
           obtain ⟨r, hx⟩ := nt_comment_r hnt hy
           exact (hnx r hx).elim
         · subst habs
-          refine h.ret _ h.c rfl { h.l with nt := OptRel.mono (fun _ _ hr => hr.weaken fun g => ?_) hnt }
-          revert g
-          simp only
-          cases hNc : ab.Nc
-          · simp; intro a _; exact a
-          · exfalso
-            obtain ⟨r, hr⟩ := h.l.nc hNc
-            exact hnx r hr
+          have hN' : (if ab.Nc = true then ab.T else ab.N && ab.T) = true → ab.N = true := by
+            intro g
+            revert g
+            cases hNc : ab.Nc
+            · simp; intro a _; exact a
+            · exfalso
+              obtain ⟨r, hr⟩ := h.l.nc hNc
+              exact hnx r hr
+          exact h.ret _ h.c rfl { h.l with nt := OptRel.mono (fun _ _ hr => hr.weaken hN') hnt, ntu := fun g => h.l.ntu (hN' g), ntp := fun g => h.l.ntp (hN' g) }
     · cases habs
   · simp only [Option.some.injEq] at habs; subst habs
     simp only [lexAct]
@@ -197,7 +202,7 @@ theorem lexAct_comment {ab ab' : Ab} {cs cw : Common} {ls lw : LexRegs} {xs xw :
       rw [hy]
       rw [hx, hy] at hnt
       have hr : NonTagRel δ ls.lexemeStart ab.N (.comment r) (.comment r') := hnt
-      refine h.ret _ h.c rfl { h.l with nt := ⟨trivial, fun g => ?_⟩, nc := fun _ => ⟨_, rfl⟩ }
+      refine h.ret _ h.c rfl { h.l with nt := ⟨trivial, fun g => ?_⟩, nc := fun _ => ⟨_, rfl⟩, ntu := (fun _ n hn => by cases hn; trivial), ntp := (fun _ _ n hn => by cases hn; trivial) }
       obtain ⟨v1, v2⟩ := hr.val g
       simp only [shNonTag, NonTagOutline.comment.injEq] at v1
       subst v1
@@ -227,7 +232,7 @@ theorem lexAct_doctype {ab ab' : Ab} {cs cw : Common} {ls lw : LexRegs} {xs xw :
       rw [hy]
       rw [hx, hy] at hnt
       have hr : NonTagRel δ ls.lexemeStart ab.N (.doctype d) (.doctype d') := hnt
-      refine h.ret _ h.c rfl { h.l with nt := ⟨rfl, fun g => ?_⟩, nc := fun g => ?_ }
+      refine h.ret _ h.c rfl { h.l with nt := ⟨rfl, fun g => ?_⟩, nc := fun g => ?_, ntu := (fun g n hn => by cases hn; exact (h.l.ntu g _ hx : leNonTag cs.nextPos (.doctype d))), ntp := (fun g g' n hn => by cases hn; exact (h.l.ntp g g' _ hx : leNonTag (cs.nextPos - 1) (.doctype d))) }
       · obtain ⟨v1, v2⟩ := hr.val g
         simp only [shNonTag, NonTagOutline.doctype.injEq] at v1
         subst v1
@@ -253,7 +258,16 @@ theorem lexAct_doctype {ab ab' : Ab} {cs cw : Common} {ls lw : LexRegs} {xs xw :
         rw [hx, hy] at hnt
         have hr : NonTagRel δ ls.lexemeStart ab.N (.doctype d) (.doctype d') := hnt
         subst habs
-        refine h.ret _ h.c rfl { h.l with nt := ⟨hfq, fun g => ?_⟩, nc := fun g => ?_ }
+        have hup : ∀ g : (ab.N && ab.T) = true, leNonTag cs.nextPos (.doctype d) := fun g =>
+          h.l.ntu (by have g' : ab.N = true ∧ ab.T = true := by simpa using g
+                      exact g'.1) _ hx
+        have hnew : leOR cs.nextPos (some ⟨ls.tokenPartStart, cs.nextPos - 1⟩) := by
+          show cs.nextPos - 1 ≤ cs.nextPos; omega
+        have hupP : ∀ g : (ab.N && ab.T) = true, leNonTag (cs.nextPos - 1) (.doctype d) := fun g =>
+          h.l.ntp (by have g' : ab.N = true ∧ ab.T = true := by simpa using g
+                      exact g'.1) hP _ hx
+        have hnewP : leOR (cs.nextPos - 1) (some ⟨ls.tokenPartStart, cs.nextPos - 1⟩) := Nat.le_refl _
+        refine h.ret _ h.c rfl { h.l with nt := ⟨hfq, fun g => ?_⟩, nc := fun g => ?_, ntu := (fun g n hn => by injection hn with hn; subst hn; first | exact ⟨hnew, (hup g).2.1, (hup g).2.2⟩ | exact ⟨(hup g).1, hnew, (hup g).2.2⟩ | exact ⟨(hup g).1, (hup g).2.1, hnew⟩), ntp := (fun g _ n hn => by injection hn with hn; subst hn; first | exact ⟨hnewP, (hupP g).2.1, (hupP g).2.2⟩ | exact ⟨(hupP g).1, hnewP, (hupP g).2.2⟩ | exact ⟨(hupP g).1, (hupP g).2.1, hnewP⟩) }
         · have g' : ab.N = true ∧ ab.T = true := by simpa using g
           obtain ⟨v1, v2⟩ := hr.val g'.1
           obtain ⟨t1, t2⟩ := h.l.t g'.2
@@ -274,9 +288,11 @@ theorem lexAct_doctype {ab ab' : Ab} {cs cw : Common} {ls lw : LexRegs} {xs xw :
           obtain ⟨d, hx⟩ := nt_doctype_r hnt hy
           exact (hnx d hx).elim
         · subst habs
-          refine h.ret _ h.c rfl { h.l with nt := OptRel.mono (fun _ _ hr => hr.weaken fun g => ?_) hnt }
-          have g' : ab.N = true ∧ ab.T = true := by simpa using g
-          exact g'.1
+          have hN' : (ab.N && ab.T) = true → ab.N = true := by
+            intro g
+            have g' : ab.N = true ∧ ab.T = true := by simpa using g
+            exact g'.1
+          exact h.ret _ h.c rfl { h.l with nt := OptRel.mono (fun _ _ hr => hr.weaken hN') hnt, ntu := fun g => h.l.ntu (hN' g), ntp := fun g => h.l.ntp (hN' g) }
     · cases habs
 
 theorem optRel_some_l {α : Type} {R : α → α → Prop} {x y : Option α} (h : OptRel R x y) {a : α}
@@ -532,10 +548,11 @@ theorem lexAct_attr (F : Frame inpS inpW δ) {ab ab' : Ab} {cs cw : Common} {ls 
       exact g'.1
 
 /-- **All lexer actions.** -/
-theorem lexAct_sim (F : Frame inpS inpW δ) (hops : OpsSim env.ops inpS inpW δ K) (a : ActName) {d : Nat}
+theorem lexAct_sim (F : Frame inpS inpW δ) (hops : OpsSim env.ops inpS inpW δ K Loc) (a : ActName) {d : Nat}
     {ab ab' : Ab} (habs : absAct a ab = some ab') {cs cw : Common} {ls lw : LexRegs} {xs xw : Ctx κ}
     (hc : CRel δ 0 cs cw) (hl : LexRel δ d ab cs.nextPos ls lw) (hsim : xw.sim = xs.sim)
     (hpc : xs.prevConsumed = xw.prevConsumed + δ) (hK : K d xs.sink xw.sink)
+    (hloc : 0 < d → Loc xs.sink xs.prevConsumed ls.lexemeStart cs.lastTextType)
     (hd : d = 0 ∨ a = .emitText ∨ a = .emitTextAndEof)
     (hin : readsInp a = true → (cs.nextPos ≤ inpS.length ∨ Closed inpS inpW δ)) :
     ActSim δ K ab' (qRequired a) (lexAct env a inpS cs ls xs) (lexAct env a inpW cw lw xw) := by
@@ -544,13 +561,13 @@ theorem lexAct_sim (F : Frame inpS inpW δ) (hops : OpsSim env.ops inpS inpW δ 
     · split at habs
       · rename_i hP
         simp only [Option.some.injEq] at habs; subst habs
-        exact lexEmitText_sim hops hc hl hP hsim hpc hK ab.stale_noLex
+        exact lexEmitText_sim hops hc hl hP hsim hpc hK hloc ab.stale_noLex
       · cases habs
     · split at habs
       · rename_i hP
         simp only [Option.some.injEq] at habs; subst habs
         simp only [lexAct]
-        exact andThen_sim (lexEmitText_sim hops hc hl hP hsim hpc hK ab.stale_noLex)
+        exact andThen_sim (lexEmitText_sim hops hc hl hP hsim hpc hK hloc ab.stale_noLex)
           (fun ms mw hm hk => lexEmitEof_sim hops hm hk hP ab.stale_noLex)
       · cases habs
   · have hd0 : d = 0 := by
@@ -578,6 +595,7 @@ theorem lexAct_sim (F : Frame inpS inpW δ) (hops : OpsSim env.ops inpS inpW δ 
           (lw := { lw with curNonTag := none }) (ls0 := ls) (lw0 := lw)
           hops ls.curNonTag (cs.pos + 1) hc hl hsim hpc hK ⟨rfl, rfl, rfl, rfl, rfl, rfl⟩
           (by omega) (fun g => by cases g) rfl rfl hl.fd (Or.inl ⟨rfl, rfl⟩) ⟨rfl, rfl⟩ (Or.inr ⟨rfl, rfl⟩)
+          (dtIn_of (hin rfl) (hl.ntu hPN.2))
       · cases habs
     case emitCurrentTokenAndEof =>
       simp only [absAct] at habs
@@ -593,7 +611,8 @@ theorem lexAct_sim (F : Frame inpS inpW δ) (hops : OpsSim env.ops inpS inpW δ 
         exact andThen_sim
           (lexEmitNonTag_sim (ls := { ls with curNonTag := none })
             (lw := { lw with curNonTag := none }) (ls0 := ls) (lw0 := lw) hops ls.curNonTag cs.pos hc hl hsim hpc hK ab.stale_noLex
-            (by omega) (fun _ => by omega) rfl rfl hl.fd (Or.inl ⟨rfl, rfl⟩) ⟨rfl, rfl⟩ (Or.inr ⟨rfl, rfl⟩))
+            (by omega) (fun _ => by omega) rfl rfl hl.fd (Or.inl ⟨rfl, rfl⟩) ⟨rfl, rfl⟩ (Or.inr ⟨rfl, rfl⟩)
+            (dtIn_of (hin rfl) (hl.ntu hPN.2)))
           (fun ms mw hm hk => lexEmitEof_sim hops hm hk hPN.1 ab.stale_noLex)
       · cases habs
     case emitRawWithoutToken =>
@@ -606,7 +625,7 @@ theorem lexAct_sim (F : Frame inpS inpW δ) (hops : OpsSim env.ops inpS inpW δ 
         rw [p1, show cs.pos + δ + 1 = cs.pos + 1 + δ by omega]
         exact lexEmitNonTag_sim (ab' := { ab.stale with P := false }) (ls := ls) (lw := lw) (ls0 := ls) (lw0 := lw)
           hops none (cs.pos + 1) hc hl hsim hpc hK ⟨rfl, rfl, rfl, rfl, rfl, rfl⟩
-          (by omega) (fun g => by cases g) rfl rfl hl.fd (Or.inl ⟨rfl, rfl⟩) ⟨rfl, rfl⟩ (Or.inl ⟨rfl, rfl⟩)
+          (by omega) (fun g => by cases g) rfl rfl hl.fd (Or.inl ⟨rfl, rfl⟩) ⟨rfl, rfl⟩ (Or.inl ⟨rfl, rfl⟩) trivial
       · cases habs
     case emitRawWithoutTokenAndEof =>
       simp only [absAct] at habs
@@ -618,7 +637,7 @@ theorem lexAct_sim (F : Frame inpS inpW δ) (hops : OpsSim env.ops inpS inpW δ 
         rw [p1]
         exact andThen_sim
           (lexEmitNonTag_sim (ls := ls) (lw := lw) (ls0 := ls) (lw0 := lw) hops none cs.pos hc hl hsim hpc hK ab.stale_noLex
-            (by omega) (fun _ => by omega) rfl rfl hl.fd (Or.inl ⟨rfl, rfl⟩) ⟨rfl, rfl⟩ (Or.inl ⟨rfl, rfl⟩))
+            (by omega) (fun _ => by omega) rfl rfl hl.fd (Or.inl ⟨rfl, rfl⟩) ⟨rfl, rfl⟩ (Or.inl ⟨rfl, rfl⟩) trivial)
           (fun ms mw hm hk => lexEmitEof_sim hops hm hk hP ab.stale_noLex)
       · cases habs
     case emitTag =>
